@@ -76,7 +76,7 @@ const (
 // case
 
 type c16Op struct {
-	K string `json:"k"`           // reg | retract | bad | badretract | validate | loop | outage | racereg | burst | selfpoll | advance | poll | racepoll | reset | restart | srestart | get | settle | inject
+	K string `json:"k"`           // reg | retract | bad | badretract | credreg | validate | loop | outage | racereg | burst | selfpoll | advance | poll | racepoll | reset | restart | srestart | get | settle | inject
 	S int    `json:"s,omitempty"` // subject index
 	C int    `json:"c,omitempty"` // client index
 	D int    `json:"d,omitempty"` // reg/retract/bad: exp delta (units) · advance: clock delta · get: timestamp selector · reset: repopulation count
@@ -166,6 +166,7 @@ func c16Gen(t *rapid.T) c16Case {
 		"settle",
 		"inject",
 		"badretract", "badretract", "badretract",
+		"credreg", "credreg", "credreg",
 		"validate", "validate", "loop", "outage", "outage",
 		"racereg", "racereg", "burst", "selfpoll", "selfpoll",
 	}
@@ -185,6 +186,12 @@ func c16Gen(t *rapid.T) c16Case {
 			op.S = rapid.IntRange(0, c.Subjects-1).Draw(t, "s")
 			op.D = rapid.IntRange(1, 60).Draw(t, "d")
 			op.M = rapid.SampledFrom(c16Defects).Draw(t, "m")
+		case "credreg":
+			op.S = rapid.IntRange(0, c.Subjects-1).Draw(t, "s")
+			op.D = rapid.IntRange(2, 60).Draw(t, "d")
+			op.M = rapid.SampledFrom([]string{"rm", "mr"}).Draw(t, "order") + ":" +
+				rapid.SampledFrom([]string{"b", "b", "e", "a", "n"}).Draw(t, "mexp") + ":" +
+				rapid.SampledFrom([]string{"n", "n", "n", "b", "a"}).Draw(t, "rexp")
 		case "badretract":
 			op.S = rapid.IntRange(0, c.Subjects-1).Draw(t, "s")
 			op.D = rapid.IntRange(1, 60).Draw(t, "d")
@@ -448,6 +455,8 @@ type c16Entry struct {
 	off  int    // exp offset (units)
 	ts   int    // timestamp handed out by the server (0 = not learned)
 	vp   vc.VerifiablePresentation
+	// set for the short-lived presentations of the ShortLived unit: their `exp` is a REAL instant a second or two ahead
+	realExp time.Time
 }
 
 type c16World struct {
@@ -689,12 +698,17 @@ func (w *c16World) membershipVC(issuer *c16ID, signKey *ecdsa.PrivateKey, subjec
 
 // registration credential: self-attested, no proof (protected by the presentation's signature), as the real client builds it.
 func (w *c16World) registrationVC(subject did.DID) vc.VerifiableCredential {
+	return w.registrationVCExp(subject, nil)
+}
+
+func (w *c16World) registrationVCExp(subject did.DID, exp *time.Time) vc.VerifiableCredential {
 	id := ssi.MustParseURI(w.nextID("urn:c16:regcred:"))
 	c := vc.VerifiableCredential{
 		Context:           []ssi.URI{vc.VCContextV1URI(), credential.NutsV1ContextURI},
 		ID:                &id,
 		Type:              []ssi.URI{vc.VerifiableCredentialTypeV1URI(), credential.DiscoveryRegistrationCredentialTypeV1URI()},
 		IssuanceDate:      w.base.Add(-time.Minute).Truncate(time.Second),
+		ExpirationDate:    exp,
 		CredentialSubject: []interface{}{map[string]interface{}{"authServerURL": "https://example.com/oauth2/" + w.nextID("s")}},
 	}
 	c = credential.AutoCorrectSelfAttestedCredential(c, subject)
@@ -853,7 +867,12 @@ func (w *c16World) defectiveVP(s, off int, defect string) (vp vc.VerifiablePrese
 // ---------------------------------------------------------------------------------------------------------------------
 // oracle: server
 
-func (w *c16World) expired(e *c16Entry) bool { return e.off <= w.clock }
+func (w *c16World) expired(e *c16Entry) bool {
+	if !e.realExp.IsZero() {
+		return !time.Now().Before(e.realExp)
+	}
+	return e.off <= w.clock
+}
 
 func c16Signer(vp vc.VerifiablePresentation) string {
 	d, err := credential.PresentationSigner(vp)
@@ -1167,6 +1186,75 @@ func (w *c16World) opBad(s, d int, defect string) {
 		expect = 0
 	}
 	w.register(vp, &c16Entry{id: id, subj: subj, kind: "reg", off: off, vp: vp}, expect, "defect-"+defect, false)
+}
+
+// opCredReg: a registration that is valid in every respect, with its two credentials in either order and each of them
+// expiring before (b) / exactly when (e) / after (a) the presentation does, or never (n). pattern = "<order>:<membership>:<registration>",
+// order rm = self-attested registration credential first. Valid iff the presentation outlives NONE of its credentials;
+// "exactly when" is not outliving (what HEAD implements with After()), but the statement can be read either way: class only.
+func (w *c16World) opCredReg(s, d int, pattern string) {
+	parts := strings.Split(pattern, ":")
+	if len(parts) != 3 || (parts[0] != "rm" && parts[0] != "mr") {
+		return
+	}
+	off := w.nextOff(s, d)
+	if off < 2 {
+		w.x.Class("skipped:credreg")
+		return
+	}
+	subj := c16Subjects[s]
+	when := func(rel string) (*time.Time, bool) {
+		var t time.Time
+		switch rel {
+		case "b":
+			t = w.at(off - 1)
+		case "e":
+			t = w.at(off)
+		case "a":
+			t = w.at(off + 7)
+		case "n":
+			return nil, true
+		default:
+			return nil, false
+		}
+		return &t, true
+	}
+	mexp, ok1 := when(parts[1])
+	rexp, ok2 := when(parts[2])
+	if !ok1 || !ok2 {
+		return
+	}
+	member := w.memberOf(s)
+	if mexp != nil {
+		member = w.membershipVC(c16Authority, c16Authority.key, subj.did, mexp)
+	}
+	reg := w.registrationVCExp(subj.did, rexp)
+	creds := []vc.VerifiableCredential{member, reg}
+	if parts[0] == "rm" {
+		creds = []vc.VerifiableCredential{reg, member}
+	}
+	exp := w.at(off)
+	vp, id := w.buildVP(c16VPSpec{signer: subj, aud: []string{c16ServiceID}, exp: &exp, creds: creds})
+	w.allOffs[id] = off
+	expect, label := 1, "registration-credential-order-and-expiry"
+	switch {
+	case parts[1] == "b" || parts[2] == "b":
+		expect = -1
+		which := "membership"
+		if parts[1] != "b" {
+			which = "registration"
+		} else if parts[2] == "b" {
+			which = "both"
+		}
+		label = "defect-outlive-" + which + "-credential:" + parts[0]
+	case parts[1] == "e" || parts[2] == "e":
+		expect, label = 0, "expires-together-with-a-credential"
+	}
+	w.x.Classf("credreg:%s", pattern)
+	cur := w.list[s]
+	if w.register(vp, &c16Entry{id: id, subj: s, kind: "reg", off: off, vp: vp}, expect, label, false) && cur != nil {
+		w.mutation()
+	}
 }
 
 // opBadRetract: subject s retracts its OWN LIVE entry (registering one first if it has none) with a retraction that is
@@ -1865,6 +1953,8 @@ func c16Run(x *h.Ctx, c c16Case) {
 			w.opRetract(op.S, op.D, op.M)
 		case "bad":
 			w.opBad(op.S, op.D, op.M)
+		case "credreg":
+			w.opCredReg(op.S, op.D, op.M)
 		case "badretract":
 			w.opBadRetract(op.S, op.D, op.M)
 		case "inject":
